@@ -100,6 +100,22 @@ def gen_case(rng, cid):
     twin = valid and not args.get('partial', {}).get('bool') and r not in ('emax', 'emin') and not (r == 'symv' and 'z' in str(args['A']))
     return {'kind': 'base', 'id': cid, 'routine': r, 'args': args, 'pos': pos, 'twin': twin, 'valid': valid}
 
+def gen_partial_case(rng, cid):
+    """directed: valid all-sparse gemm / syrk calls with partial=True (every trans pair, real and complex, alpha / beta given)"""
+    tc = rng.choice('dz')
+    m, n, k = rng.randint(1, 4), rng.randint(1, 4), rng.randint(1, 4)
+    def sp(a, b): return {'sp': [tc, a, b, rng.randint(0, 5)]}
+    if rng.random() < 0.75:
+        tA, tB = rng.choice('NTC'), rng.choice('NTC')
+        args = {'A': sp(*((m, k) if tA == 'N' else (k, m))), 'B': sp(*((k, n) if tB == 'N' else (n, k))), 'C': sp(m, n),
+                'transA': {'chr': tA}, 'transB': {'chr': tB}, 'alpha': num(rng), 'beta': num(rng), 'partial': {'bool': True}}
+        return {'kind': 'base', 'id': cid, 'routine': 'gemm', 'args': args, 'pos': ['A', 'B', 'C'], 'twin': False, 'valid': True}
+    t = rng.choice('NT')
+    args = {'A': sp(*((n, k) if t == 'N' else (k, n))), 'C': sp(n, n), 'trans': {'chr': t}, 'uplo': {'chr': rng.choice('LU')},
+            'alpha': num(rng), 'beta': num(rng), 'partial': {'bool': True}}
+    if tc == 'z': args['A'] = {'sp': ['d', args['A']['sp'][1], args['A']['sp'][2], args['A']['sp'][3]]}; args['C'] = {'sp': ['d'] + args['C']['sp'][1:]}
+    return {'kind': 'base', 'id': cid, 'routine': 'syrk', 'args': args, 'pos': ['A', 'C'], 'twin': False, 'valid': True}
+
 def show(case):
     return 'base.%s(%s)' % (case['routine'], ', '.join('%s=%s' % (k, list(v.values())[0]) for k, v in case['args'].items()))
 
@@ -156,8 +172,11 @@ def base_probes(ctx, rng, gb, prop='C19'):
     llines, lpy = [], []
     corpus = [dict(c, id=8 * 10**6 + i, valid=True) for i, c in enumerate(json.load(open(os.path.join(vlib.VERIF, 'tools', 'corr', 'c19_corpus.json')))['base'])]
     try:
-        for it in range(n + len(corpus)):
+        rng_p = random.Random(ctx.seed * 2203 + 16)          # directed partial=True calls (C16 only): appended, own stream
+        n_dir = (n // 20) if prop == 'C16' else 0
+        for it in range(n + len(corpus) + n_dir):
             if it < len(corpus): case = corpus[it]
+            elif it >= n + len(corpus): case = gen_partial_case(rng_p, 9 * 10**6 + it)
             else: case = gen_case(rng, cid); cid += 1
             res = w.run(case)
             if res.startswith('crash') or res == 'worker-died':
